@@ -286,9 +286,23 @@ def c04_case(proto, cfg, tokens, style, lead=None):
             "_meta": {"style": style}}
 
 
+ABSOLUTE_TARGETS = ["@TOP/srv/rootx/a.txt", "@TOP/srv/roota.txt", "@TOP/srv/root.j2", "@TOP/srv/root/a.txt",
+                    "@TOP/above.txt", "@TOP/srv/root/b/c.txt", "@TOP/srv/rootx", "@TOP/srv/root"]
+
+
 def gen_c04(rng, tier, mult=1):
     yield from gen_batches(rng, tier, which=("normpath", "translate", "splitjoin", "unquote"))
     cfgs = c04_configs()
+    # the client spells out an ABSOLUTE path of the server's file system behind a doubled or encoded slash: files
+    # beside the root whose names start like the root's name (rootx/, roota.txt, root.j2) and files inside it
+    for proto, cfg in cfgs:
+        if "root_dir" not in cfg:
+            continue
+        for tgt in ABSOLUTE_TARGETS:
+            for joint in ("/", "%2f", "//", "/./"):
+                yield c04_case(proto, cfg, [joint.strip("/") + tgt if joint in ("%2f",) else tgt] if joint in ("/", "%2f")
+                               else ["", tgt.lstrip("/")] if joint == "//" else [".", tgt], "absolute",
+                               lead=("" if proto == "tftp" and rng.random() < 0.5 else None))
     k = 0
 
     def rot():
